@@ -85,20 +85,7 @@ theorem fifo (is : List Input) :
 name, address intact) of every spa the consumer has taken off the queue and the filter admits, in that order; nothing is
 skipped or handled twice (`arrived = popped ++ queue`).  `specDecode` is the specification's reading of a reply: identifier
 up to the first `|`, name = everything after it. -/
-theorem listed_iff_replied (is : List Input) (hspa : ∀ d, Input.datagram d ∈ is → IsSpaReply d) :
-    let s := discoverRun c f is
-    s.spas = firstPerId ((s.popped.map specDecode).filter (fun d => f.passes d.id)) ∧
-    s.arrived = s.popped ++ s.queue ∧ (∀ e, s.consumer ≠ .dead e)
-
-`IsSpaReply d`: `d.payload = <HELLO>i|n</HELLO>` with `GoodId i` and an ARBITRARY name `n`; `specDecode` cuts at the FIRST `|`.
-Once `handle` uses `content.split(b"|", 1)`: change `parseContent` in Model/Discovery.lean to split at the first bar, weaken
-`GoodReply` to `IsSpaReply` (drop `NoBar n`) in Proofs/DiscoveryLemmas.lean (`codeParse_reply` then holds without `hn`),
-rename the theorem below to `listed_iff_replied` and delete `d2_witness`. -/
-
-/-- **listed_iff_replied_partial**: if every datagram is a spa reply whose NAME CONTAINS NO `|`, then the consumer never
-dies and the list is exactly the first reply (identifier, name, address intact) of every spa the consumer has taken off
-the queue and the filter admits, in that order -/
-theorem listed_iff_replied (is : List Input) (hgood : ∀ d, Input.datagram d ∈ is → GoodReply d) :
+theorem listed_iff_replied (is : List Input) (hgood : ∀ d, Input.datagram d ∈ is → IsSpaReply d) :
     let s := discoverRun c f is
     s.spas = firstPerId ((s.popped.map specDecode).filter (fun d => f.passes d.id)) ∧
     s.arrived = s.popped ++ s.queue ∧ (∀ e, s.consumer ≠ .dead e) := by
@@ -248,7 +235,7 @@ def spaA' : Datagram := ⟨helloReply [83, 80, 65, 49] [79, 116, 104], ⟨[49, 4
 def spaB : Datagram := ⟨helloReply [83, 80, 65, 50] [77, 121], ⟨[49, 50], 10022⟩⟩            -- SPA2 "My"   (same name)
 def quiet (n : Nat) : List Slot := List.replicate n ⟨[], true⟩
 
-example : GoodReply spaA := ⟨[83, 80, 65, 49], [77, 121], ⟨by unfold NoBar; decide, by decide, by decide⟩, rfl⟩
+example : IsSpaReply spaA := ⟨[83, 80, 65, 49], [77, 121], ⟨by unfold NoBar; decide, by decide, by decide⟩, rfl⟩
 
 /-- duplicates, the same id from two addresses, two spas with the same name; no filter: listed once each, first reply's
 fields, return at the first tick after the initial wait -/
